@@ -25,6 +25,8 @@ def one(d, jobs):
     out = os.path.join(OUT, name + ".json")
     if os.path.exists(out):
         return name, json.load(open(out))
+    if not os.path.exists(d + "/patch.diff"):
+        return name, {"applies": False, "note": "no patch.diff yet"}
     tmp = tempfile.mkdtemp(prefix="seedconf_")
     try:
         subprocess.check_call("git -C /repo archive HEAD | tar -x -C %s" % tmp, shell=True)
